@@ -2,7 +2,8 @@
    Statements only; proofs in Proofs/Gro*.v.  Same model as C13. *)
 From Coq Require Import List Ascii NArith ZArith Bool Arith Lia.
 From GM Require Import Base.Res Base.StrGro Gen.SrcConsts Model.GroCodec Model.GroFile
-  Proofs.GroStr Proofs.GroCodecP Proofs.GroReadP Proofs.GroWriteP Proofs.GroMain Proofs.GroPrefixP Proofs.GroFailClose.
+  Proofs.GroStr Proofs.GroCodecP Proofs.GroReadP Proofs.GroWriteP Proofs.GroMain Proofs.GroPrefixP Proofs.GroFailClose
+  Gen.GroKernelsGen Proofs.GroKernelsGenEq.
 Import ListNotations.
 
 (* Crash points at operation granularity.  The operations of a run are
@@ -86,6 +87,27 @@ Theorem C14_accepted_same_atoms : forall (c : wconf) (w d : nat) (vel : bool) (r
        exists rf, read_gro f = Ok rf /\ r_atoms r = r_atoms rf).
 Proof. exact accepted_same. Qed.
 Print Assumptions C14_accepted_same_atoms.
+
+(* ---------------------------------------------------------------- the model is the source (DESIGN.md 4.6)
+   the two text kernels the READER's accept/reject decision rests on, re-translated from the current text of
+   gaddlemaps/parsers/__init__.py at every run (harness/pytrans_str.py -> Gen/GroKernelsGen.v): the format
+   detection on the first atom line and the number fields of every atom line *)
+Theorem C14_model_is_source_format : forall line : bytes,
+  determine_format_gen line =
+  rmap (fun p : nat * bool => (Z.of_nat (fst p), (Z.of_nat (fst p) - 5)%Z, snd p)) (determine_format line).
+Proof. exact determine_format_gen_eq. Qed.
+Print Assumptions C14_model_is_source_format.
+
+Theorem C14_model_is_source_numbers : forall (fmt : nat * bool) (line : bytes),
+  parse_atomline_body fmt line =
+  (let (w, vel) := fmt in
+   let l := drop_final_nl line in
+   if negb (length l =? 20 + w * 3 * (1 + (if vel then 1 else 0))) then Err EIO else
+   let* nums := validate_res_atom_numbers_gen l in
+   let* vals := mapM parse_float (chop_fields (if vel then 6 else 3) w (skipn 20 l)) in
+   Ok (mkratom (fst nums) (strip_py (firstn 5 (skipn 5 l))) (strip_py (firstn 5 (skipn 10 l))) (snd nums) vals)).
+Proof. exact parse_atomline_body_uses_gen. Qed.
+Print Assumptions C14_model_is_source_numbers.
 
 (* ---------------------------------------------------------------- non-vacuity *)
 Local Open Scope char_scope.
